@@ -77,11 +77,7 @@ class C21(FlowCheck):
         rng = self.rng
         out = []
         for i in range(n):
-            if i % 10 < 9:
-                out.append(G.gen_trap(rng))
-            else:
-                c = G.gen_flat(rng)
-                out.append(c)
+            out.append(G.gen_trap(rng))
         self.count(out)
         return out
 
